@@ -14,6 +14,14 @@ def run(ctx):
         stride = qs if ctx.quick() else ts
         cfg = "SPECIFICATION Spec\nCONSTANTS\n  Family = \"%s\"\n  Stride = %d\n  Phase = %d\n" % (fam, stride, ctx.seed % stride)
         p, n = pipeline.gen_tlc(ctx, "PktGen", cfg, "PktGen[%s]" % fam, fam, expect_min=max(1, emin // (2 * stride)), workers=8, xmx="8g")
+        if fam == "DL":
+            # options after an explicit end option are padding to the decoder (it stops at END): encodable (C06), not a round-trip value
+            def end_last(r):
+                tags = [o["args"][0] for o in r["ops"] if o.get("ctor") == "DHCPNewOption"]
+                return [255] not in tags[:-1]
+            rows = [r for r in vlib.read_ndjson(p) if end_last(r)]
+            vlib.write_ndjson(p, rows)
+            n = len(rows)
         counts[fam] = n
         recs += pipeline.run_family(ctx, SUB, p, JUDGE, max_lines=20000)[1]
     ctx.extra.update(families=counts, distinct_nontrivial=sum(counts.values()))
